@@ -46,6 +46,32 @@ pub enum Val {
     Stat(u64),
     /// `(values a b ...)` on its way to `call-with-values` / `receive` / `let-values`
     Values(Arc<Vec<Val>>),
+    /// condition variable
+    CondVar(Arc<CvCell>),
+    /// a thread created by the program with call-with-new-thread (its result, once joined)
+    Thread(Arc<ThreadCell>),
+}
+
+/// A condition variable: a generation counter under the controlled scheduler's mutex + condvar.
+/// `signal` wakes every waiter (a legal superset of "wakes one": waiters must tolerate spurious
+/// wake-ups anyway); a signal with nobody waiting is lost, as in reality.
+pub struct CvCell {
+    sh: Option<(shuttle::sync::Mutex<u64>, shuttle::sync::Condvar)>,
+}
+impl std::fmt::Debug for CvCell {
+    fn fmt(&self, f: &mut std::fmt::Formatter<'_>) -> std::fmt::Result {
+        write!(f, "#<condition-variable>")
+    }
+}
+
+pub struct ThreadCell {
+    handle: StdMutex<Option<shuttle::thread::JoinHandle<Result<Val, EvalErr>>>>,
+    id: usize,
+}
+impl std::fmt::Debug for ThreadCell {
+    fn fmt(&self, f: &mut std::fmt::Formatter<'_>) -> std::fmt::Result {
+        write!(f, "#<thread {}>", self.id)
+    }
 }
 
 #[derive(Debug, Default)]
@@ -324,6 +350,7 @@ const PROCEDURES: &[&str] = &[
     "call-with-values", "string-trim", "string-trim-right", "string-trim-both", "string-split", "string-reverse", "string-map", "string-for-each", "string-count",
     "char-upcase", "char-downcase", "char-alphabetic?", "char-numeric?", "char-whitespace?", "char-upper-case?", "char-lower-case?", "append-map", "list-copy", "vector-map",
     "vector-copy", "exact->inexact", "inexact->exact", "exact", "inexact", "round", "truncate", "floor", "ceiling", "expt",
+    "make-condition-variable", "wait-condition-variable", "signal-condition-variable", "broadcast-condition-variable", "call-with-new-thread", "join-thread",
     "pair?", "list?", "symbol?", "cadr", "cddr", "caar", "cdar", "assq", "assv", "assoc", "assq-ref", "assv-ref", "assoc-ref", "memq", "memv",
     "current-thread", "try-mutex", "mutex-locked?", "mutex-owner", "call-with-output-string", "open-output-string", "get-output-string", "vector", "vector-ref", "vector-length", "make-vector",
     "vector-set!", "vector-fill!", "list-ref", "min", "max", "abs", "modulo", "remainder",
@@ -1714,6 +1741,75 @@ impl Runtime {
                     }
                 }
             }
+            "make-condition-variable" => Ok(Val::CondVar(Arc::new(CvCell {
+                sh: if self.concurrent { Some((shuttle::sync::Mutex::new(0), shuttle::sync::Condvar::new())) } else { None },
+            }))),
+            "wait-condition-variable" => {
+                let (Some(Val::CondVar(cv)), Some(Val::Mutex(m))) = (args.first(), args.get(1)) else { return runtime("wait-condition-variable: expected a condition variable and a mutex") };
+                let Some((gen, cond)) = &cv.sh else { return runtime("wait-condition-variable: nobody can signal in a sequential run (mutex and condition wait would block for ever)") };
+                let timed = args.len() > 2;
+                // the generation is read while the mutex is still held: a signal sent after the
+                // release below is seen, one sent before this call is lost
+                let mut g = gen.lock().unwrap_or_else(|e| e.into_inner());
+                let g0 = *g;
+                self.release(*m, ctx, "wait-condition-variable")?;
+                let mut signalled = true;
+                if timed {
+                    // a wait with a time-out may return without a signal
+                    drop(g);
+                    self.yield_point();
+                    signalled = *gen.lock().unwrap_or_else(|e| e.into_inner()) != g0;
+                } else {
+                    while *g == g0 {
+                        g = cond.wait(g).unwrap_or_else(|e| e.into_inner());
+                    }
+                    drop(g);
+                }
+                self.acquire(*m, ctx, "wait-condition-variable")?;
+                Ok(Val::Bool(signalled))
+            }
+            "signal-condition-variable" | "broadcast-condition-variable" => {
+                let Some(Val::CondVar(cv)) = args.first() else { return runtime(format!("{name}: not a condition variable")) };
+                if let Some((gen, cond)) = &cv.sh {
+                    self.point();
+                    *gen.lock().unwrap_or_else(|e| e.into_inner()) += 1;
+                    cond.notify_all();
+                }
+                Ok(Val::Unspec)
+            }
+            "call-with-new-thread" | "begin-thread-thunk" => {
+                let Some(thunk) = args.first().cloned() else { return runtime("call-with-new-thread: missing thunk") };
+                if !self.concurrent {
+                    // a sequential run has one thread: the thunk runs to completion here
+                    let v = self.apply(&thunk, vec![], ctx)?;
+                    return Ok(Val::Thread(Arc::new(ThreadCell { handle: StdMutex::new(None), id: 0 }))).map(|t| {
+                        let _ = v;
+                        t
+                    });
+                }
+                let id = 1000 + self.calls.fetch_add(1, Ordering::SeqCst) as usize;
+                let rt = self.clone();
+                let (file, _) = (ctx.file, ());
+                let h = shuttle::thread::spawn(move || {
+                    let mut c = Ctx::new(id);
+                    c.file = file;
+                    rt.apply(&thunk, vec![], &mut c)
+                });
+                Ok(Val::Thread(Arc::new(ThreadCell { handle: StdMutex::new(Some(h)), id })))
+            }
+            "join-thread" => match args.first() {
+                Some(Val::Thread(t)) => {
+                    let h = t.handle.lock().unwrap().take();
+                    match h {
+                        Some(h) => match h.join() {
+                            Ok(r) => r,
+                            Err(_) => runtime("join-thread: the thread panicked"),
+                        },
+                        None => Ok(Val::Unspec),
+                    }
+                }
+                other => runtime(format!("join-thread: not a thread: {other:?}")),
+            },
             "make-atomic-box" => Ok(Val::Box(Arc::new(StdMutex::new(args.first().cloned().unwrap_or(Val::Unspec))))),
             "atomic-box-ref" | "atomic-box-set!" | "atomic-box-swap!" | "atomic-box-compare-and-swap!" => {
                 let Some(Val::Box(b)) = args.first() else { return runtime(format!("{name}: not an atomic box")) };
